@@ -9,6 +9,7 @@ def build(tier, seed):
         PUnit("rewind", [W.REWIND], W.REG),
         PUnit("random-walk-loop", [W.RANDOM_WALK], W.REG),
         LUnit("cnt-monotone", W.lemma_cnt_monotone),
+        PUnit("handle-random-walk", [W.HANDLE_WALK], W.REGH),
     ] + [u for u in b_build.UNITS if u.name == "c17-schedules"] + [
     ]
     return {"units": units, "level": "other", "notes": "pyvc"}
